@@ -7,7 +7,7 @@ import subprocess
 
 DIRNAMES = ["docs", "src", "a", "b", "d1", "d2", "sub dir", ".hidden", "drafts", "guide", "Docs", "issue #12", "issue"]
 EXCLUDED_DIRNAMES = ["node_modules", "build", ".venv", "x.egg-info", "vendor", "__pycache__", ".hg"]
-FILENAMES = ["a.md", "b.md", "c.md", "README.md", "x.mdx", "n.txt", ".dot.md", "sp ace.md", "UP.MD", "d.md", "ch#1.md", "x#.md", "readme.md", "n #1.md", "n", "cafe\u0301.md", "caf\u00e9.md", " #x.md"]
+FILENAMES = ["a.md", "b.md", "c.md", "README.md", "x.mdx", "n.txt", ".dot.md", "sp ace.md", "UP.MD", "d.md", "ch#1.md", "x#.md", "readme.md", "n #1.md", "n", "cafe\u0301.md", "caf\u00e9.md", " #x.md", "[a.md"]
 GIT_ENV = dict(os.environ, GIT_CONFIG_GLOBAL="/dev/null", GIT_CONFIG_NOSYSTEM="1", HOME="/nonexistent", GIT_CEILING_DIRECTORIES="/tmp")
 
 # gitignore pattern language: basename, anchored, multi-segment, dir-only, *, **, ?, classes, negation, escapes, comments
@@ -18,7 +18,10 @@ PATTERNS = ["*.tmp", "b.md", "/b.md", "d1/b.md", "d1/", "/d1/", "d?/", "**/c.md"
             # names are compared as written: a precomposed pattern does not match a decomposed file name and vice versa
             "cafe\u0301.md", "caf\u00e9.md", "!cafe\u0301.md", "/caf\u00e9.md",
             # '#' is a comment only in the first column; a line ends at LF and at nothing else (not at FF, VT, U+2028)
-            " #x.md", "a.md\x0cb.md", "c.md\u2028README.md", " b.md"]
+            " #x.md", "a.md\x0cb.md", "c.md\u2028README.md", " b.md",
+            # lines git reads without complaint but that match nothing: an empty pattern (with '!' or a directory slash), a
+            # trailing unescaped backslash, an unclosed '['
+            "/", "!", "!/", "\\", "a.md\\", "b.md\\ ", "[a.md", "!docs/[b", "[a-", "d1/\\"]
 
 
 def build_tree(r: random.Random, root: str, *, excluded_names=True, symlinks=False, sizes=False, depth=4) -> dict:
